@@ -25,7 +25,7 @@ func main() {
 const header = "From Verif Require Import Base.Prelude Base.Decimal Enc.JsonEnc Misc.Level Api.Exec Harness.C01H."
 
 func run(c *Ctx) {
-	c.Res.Rule = "a case is a whole logging program: global settings, a logger derivation chain (With/UpdateContext with context ops, hooks incl. the library's LevelHook, byte-neutral Level/Output/Sample, stretches derived while the logger is Disabled or descends from Nop()), one event started through WithLevel / the level's method / Logger.Write / Print (level, field ops with nesting Dict/Array/Object/EmbedObject/Fields/Func/errors, message, finalizer); values drawn from class alphabets (escaping/UTF-8 classes, integer/float/time boundaries; directed: type names with tags, years and zone offsets at the ends of time.Time, neighbouring instants under dot- and comma-fraction layouts); corpus of fixed defects first; non-trivial = the event was written and has at least 3 members; distinct by Gallina term"
+	c.Res.Rule = "a case is a whole logging program: global settings, a logger derivation chain (With/UpdateContext with context ops, hooks incl. the library's LevelHook, byte-neutral Level/Output/Sample, stretches derived while the logger is Disabled or descends from Nop()), one event started through WithLevel / the level's method / Logger.Write / Print (level, field ops with nesting Dict/Array/Object/EmbedObject/Fields/Func/errors, message, finalizer); values drawn from class alphabets (escaping/UTF-8 classes, integer/float/time boundaries; directed: type names with tags, years and zone offsets at the ends of time.Time, neighbouring instants under dot- and comma-fraction layouts; another event started on a logger and writer of its own at every kind of place of the program - caller code, callback, marshaler, dict under construction, hook - before / after a Discard(), finalized at once or after the outer event: each inner event is a case of its own, every Write on its writer is accounted for); corpus of fixed defects first; non-trivial = the event was written and has at least 3 members; distinct by Gallina term"
 	c.OpenShards(header, "c01_case * c01_obs", "mismatches c01_run c01_eqb", 400)
 	n := 3000
 	if c.Thorough() {
@@ -56,6 +56,7 @@ func run(c *Ctx) {
 			c.Hist("members", fmt.Sprintf("%d", len(v.Members)/4*4))
 		}
 		monitorLayout(c, cs, o)
+		monitorNested(c, cs, o)
 		if cs.Pre != nil {
 			c.Hist("filtered_event_before", progs.PreludeModes[cs.Pre.Mode])
 			if o.PreWrites > 0 {
@@ -127,6 +128,11 @@ func run(c *Ctx) {
 			}
 		}
 		varyDerivation(cs, g)
+		if g.R.Chance(6) {
+			// somewhere in the program (caller code, a callback, a marshaler, a dict under construction, a hook -
+			// after its Discard() too) another event is started and finished on a logger and writer of its own
+			cs.InsertNested(g, 1+g.R.Intn(2))
+		}
 		emit(cs)
 	}
 }
@@ -251,6 +257,7 @@ func runC01(c *Ctx, emit func(cs *progs.Case) progs.Obs) {
 	}
 	runC01Texts(c, emit)
 	runC01Times(c, emit)
+	runNestedSweep(c, emit)
 }
 
 // runC01Texts: texts the library takes from somewhere else than a string argument and writes as a JSON string: the
@@ -382,7 +389,13 @@ func noHooks(cs []progs.Cop) []progs.Cop {
 }
 
 // C03: hooks attached along the derivation run exactly once each, ancestors first, in registration order
-func monitorLayout(c *Ctx, cs *progs.Case, o progs.Obs) {
+func monitorLayout(c *Ctx, cs *progs.Case, o progs.Obs) { monitorLayoutAs(c, cs, o, nil) }
+
+// monitorLayoutAs: desc, if given, is what a violation shows as its input (an inner event is shown with the program it is part of)
+func monitorLayoutAs(c *Ctx, cs *progs.Case, o progs.Obs, desc interface{}) {
+	if desc == nil {
+		desc = cs.Describe()
+	}
 	want := cs.HookMarks()
 	set := map[uint64]bool{}
 	for _, id := range want {
@@ -392,14 +405,14 @@ func monitorLayout(c *Ctx, cs *progs.Case, o progs.Obs) {
 	// WithLevel(Disabled)) invokes no hook
 	for _, m := range o.PreMarks {
 		if set[m] {
-			c.Violate(Violation{Key: "hook-ran-for-filtered-event", Monitor: "hooks-once", Desc: fmt.Sprintf("a hook of the logger ran for an event that is not enabled (%s): marks %v", progs.PreludeModes[cs.Pre.Mode], o.PreMarks), Case: cs.Describe(), Observed: o.PreMarks})
+			c.Violate(Violation{Key: "hook-ran-for-filtered-event", Monitor: "hooks-once", Desc: fmt.Sprintf("a hook of the logger ran for an event that is not enabled (%s): marks %v", progs.PreludeModes[cs.Pre.Mode], o.PreMarks), Case: desc, Observed: o.PreMarks})
 			break
 		}
 	}
 	if cs.Level == 7 {
 		for _, m := range o.Marks {
 			if set[m] {
-				c.Violate(Violation{Key: "hook-ran-for-filtered-event", Monitor: "hooks-once", Desc: fmt.Sprintf("a hook of the logger ran for an event started with WithLevel(Disabled): marks %v", o.Marks), Case: cs.Describe(), Observed: o.Marks})
+				c.Violate(Violation{Key: "hook-ran-for-filtered-event", Monitor: "hooks-once", Desc: fmt.Sprintf("a hook of the logger ran for an event started with WithLevel(Disabled): marks %v", o.Marks), Case: desc, Observed: o.Marks})
 				break
 			}
 		}
@@ -413,6 +426,6 @@ func monitorLayout(c *Ctx, cs *progs.Case, o progs.Obs) {
 	}
 	// a discarding hook does not stop later hooks in the code; the property asks each hook exactly once per enabled event
 	if fmt.Sprint(got) != fmt.Sprint(want) {
-		c.Violate(Violation{Key: "hooks-not-once-in-order", Monitor: "hooks-once", Desc: fmt.Sprintf("hook invocations %v, want %v", got, want), Case: cs.Describe(), Observed: got, Expected: want})
+		c.Violate(Violation{Key: "hooks-not-once-in-order", Monitor: "hooks-once", Desc: fmt.Sprintf("hook invocations %v, want %v", got, want), Case: desc, Observed: got, Expected: want})
 	}
 }
